@@ -62,7 +62,7 @@ def greedyb (env : Env) : Nat → Ty → Bool
     | .either l r => greedyb env fuel l || greedyb env fuel r
     | .eitherRef t => greedyb env fuel t
     | .prim p => p.greedy
-    | .cell | .opaque _ | .vmStack _ => true
+    | .cell | .opaque _ | .vmStack _ | .dict _ _ => true
     | _ => false
 def greedyFields (env : Env) : Nat → Fields → Bool
   | 0, _ => true
@@ -137,6 +137,7 @@ def wfb (env : Env) : Ty → Bool
   | .prim p => p.wf && p.proved
   | .vmStack _ => false                  -- decode returns the reversed list: see `vmstack_convention`
   | .dictE k t => (keyWidth k).isSome && wfb env k && wfb env t
+  | .dict k t => (keyWidth k).isSome && wfb env k && wfb env t
   | .encErr _ => true
   | .opaque _ => false
 def wfFields (env : Env) : Fields → Bool
@@ -249,6 +250,29 @@ def strictlyAscending : List Hashmap.Key → Bool
   | [] => true
   | k :: rest => rest.all (fun k' => Hashmap.lexLt k k') && strictlyAscending rest
 
+/-- domain of a dictionary value, given the domains and the encoders of its key and value types: as many values as
+keys, every key and value in its domain; the keys listed in strictly ascending order of their encoded bits (what the
+decoder returns); every value fits a leaf next to a full-width label -/
+def dictDom (kw : Option Nat) (kin vin : Val → Bool) (kenc venc : Val → Outcome Builder) (v : Val) : Bool :=
+  match dictParts v, kw with
+  | some (ks, vs), some n =>
+    ks.length == vs.length && dictShapeOk v &&
+    ks.all kin && vs.all vin &&
+    ks.all (fun kv => match kenc kv with
+      | .ok kb => kb.refs.isEmpty
+      | _ => false) &&
+    (match mapMOutcome (fun kv => (kenc kv).bind fun kb => .ok kb.bits) ks with
+      | .ok kbits => kbits.all (·.length == n) && strictlyAscending kbits
+      | _ => false) &&
+    vs.all (fun x => match venc x with
+      | .ok vb => vb.bits.length + n + 9 + Hashmap.minBitsRequired n ≤ 1023 && vb.refs.length ≤ 4
+      | _ => false)
+  | _, _ => false
+
+def Val.isNil : Val → Bool
+  | .nil => true
+  | _ => false
+
 mutual
 /-- the value is in the domain of the type: it fits the TL-B widths and the Go representation -/
 def inDom (env : Env) : Nat → Ty → Val → Bool
@@ -296,22 +320,10 @@ def inDom (env : Env) : Nat → Ty → Val → Bool
       | _ => false)
     | .refT t => inDom env fuel t v
     | .prim p => p.inDom v
-    | .dictE k t => (match dictParts v, keyWidth k with
-      | some (ks, vs), some n =>
-        -- as many values as keys, every key and value in its domain; the keys listed in strictly ascending order of
-        -- their encoded bits (what the decoder returns); every value fits a leaf next to a full-width label
-        ks.length == vs.length && dictShapeOk v &&
-        ks.all (fun kv => inDom env fuel k kv) && vs.all (fun x => inDom env fuel t x) &&
-        ks.all (fun kv => match encode env fuel k kv Builder.empty with
-          | .ok kb => kb.refs.isEmpty
-          | _ => false) &&
-        (match mapMOutcome (fun kv => (encode env fuel k kv Builder.empty).bind fun kb => .ok kb.bits) ks with
-          | .ok kbits => kbits.all (·.length == n) && strictlyAscending kbits
-          | _ => false) &&
-        vs.all (fun x => match encode env fuel t x Builder.empty with
-          | .ok vb => vb.bits.length + n + 9 + Hashmap.minBitsRequired n ≤ 1023 && vb.refs.length ≤ 4
-          | _ => false)
-      | _, _ => false)
+    | .dictE k t => dictDom (keyWidth k) (fun x => inDom env fuel k x) (fun x => inDom env fuel t x)
+        (fun x => encode env fuel k x Builder.empty) (fun x => encode env fuel t x Builder.empty) v
+    | .dict k t => dictDom (keyWidth k) (fun x => inDom env fuel k x) (fun x => inDom env fuel t x)
+        (fun x => encode env fuel k x Builder.empty) (fun x => encode env fuel t x Builder.empty) v && !v.isNil
     | .encErr _ => true
     | _ => false
 /-- domain of one struct field (mirrors the fuel use of `encodeField`) -/
